@@ -54,6 +54,7 @@ func C13(ctx *core.Ctx) {
 	ctx.Rule("C13.R1", "bounded waits: every blocking operation on the caller's goroutine in FTransport.Request/Oneway is a select with a timeout case derived from the FContext (or an HTTP round trip bound to a context with that timeout)", 5)
 	ctx.Rule("C13.R2", "no stalling I/O on the caller's goroutine; the spawned sender performs at most cap sends on its private result channel", 8)
 	ctx.Rule("C13.R3", "the timeout edge returns a transport exception of kind TIMED_OUT", 4)
+	c13HTTPErrorIdentity(ctx, r)
 	ctx.Rule("C13.R4", "no registration is left behind (deferred Unregister of the same context on every path after Register)", 3)
 	ctx.Assume("http.Client.Do returns, and reads of the response body fail, once the request context is done")
 	ctx.Assume("context.WithTimeout(d) is done after d; time.After(d) fires after d")
